@@ -58,7 +58,10 @@ API
     choice(n, label='')                            data decision in range(n)  (0 when unmanaged)
     current()                                      (scheduler, thread id) or (None, -1)
     stop(reason)                                   cut the run
-  choosers (all have `.pick(kind, n, costs, info)`):
+  choosers - any object with `.pick(kind, n, costs, info) -> index in range(n)`; kind is 'thread' or 'data',
+  costs[i] the preemption cost of option i, info for thread decisions = {'options': [thread ids],
+  'labels': [label of the point each option waits at], 'current': id of the yielding thread if it is
+  option 0 else None, 'voluntary': bool}, for data decisions {'label': ...}:
     ListChooser(choices, default=0)         dense list of option indices (taken modulo n), `default`
                                             afterwards - used for replay
     SparseChooser(pairs, data=())           [(gap, alt), ...]: let `gap` thread decisions take option 0,
@@ -584,3 +587,131 @@ def split_prefixes(run_fn, bound, min_count, max_depth=24):
         if len(out) >= min_count or depth >= max_depth:
             return out
         depth += 2
+
+
+# ------------------------------------------------------------------------------------------------
+# self-test / usage example:  cd /verif && /venv/bin/python -m vcheck.detsched
+
+def _selftest():
+    # 1. classic lost update: two threads do read; yield; write.  DFS finds both final values.
+    def lost_update(ch):
+        box = {'v': 0}
+        s = Scheduler(ch)
+
+        def inc():
+            point('read')
+            v = box['v']
+            point('write')
+            box['v'] = v + 1
+        s.spawn(inc)
+        s.spawn(inc)
+        assert s.run() == 'done'
+        return box['v']
+    finals = collections.Counter(r for _, r in explore(lost_update, bound=2))
+    assert set(finals) == {1, 2}, finals
+    assert set(r for _, r in explore(lost_update, bound=0)) == {2}
+    # sharding partitions the tree
+    roots = split_prefixes(lost_update, 2, 4)
+    n = sum(1 for root in roots for _ in explore(lost_update, 2, root))
+    assert n == sum(finals.values()), (n, finals)
+
+    # 2. deadlock detection with modelled locks (AB / BA)
+    def abba(ch):
+        a, b = DetLock(), DetLock()
+        s = Scheduler(ch)
+
+        def t1():
+            with a:
+                with b:
+                    pass
+
+        def t2():
+            with b:
+                with a:
+                    pass
+        s.spawn(t1)
+        s.spawn(t2)
+        return s.run()
+    outs = collections.Counter(r for _, r in explore(abba, bound=1))
+    assert outs['deadlock'] > 0 and outs['done'] > 0, outs
+
+    # 3. virtual time: eager and idle sleepers, replay of a recorded schedule
+    def sleepy(ch, mode):
+        s = Scheduler(ch, sleep_mode=mode, epoch=0.0)
+        order = []
+
+        def a():
+            sleep(5)
+            order.append(('a', now()))
+
+        def b():
+            point('x')
+            order.append(('b', now()))
+        s.spawn(a)
+        s.spawn(b)
+        assert s.run() == 'done'
+        return order, s.choices()
+    res = [r for _, r in explore(lambda ch: sleepy(ch, 'idle'), bound=2)]
+    assert all(o == [('b', 0.0), ('a', 5.0)] for o, _ in res), res
+    res = [r for _, r in explore(lambda ch: sleepy(ch, 'eager'), bound=2)]
+    assert {tuple(o) for o, _ in res} == {(('b', 0.0), ('a', 5.0)), (('a', 5.0), ('b', 5.0))}, res
+    for o, choices in res:
+        assert sleepy(ListChooser(choices), 'eager')[0] == o
+
+    # 4. threads started by the code under test are adopted; join blocks; step bound is reported
+    def spawner(ch):
+        s = Scheduler(ch)
+        seen = []
+
+        def worker(i):
+            point('w')
+            seen.append(i)
+
+        def parent():
+            ths = [threading.Thread(target=worker, args=(i,)) for i in range(2)]
+            for th in ths:
+                th.start()
+            for th in ths:
+                th.join()
+            seen.append('joined')
+        s.spawn(parent)
+        with s.adopt_threads():
+            assert s.run() == 'done'
+        return tuple(seen)
+    orders = set(r for _, r in explore(spawner, bound=2))
+    assert orders == {(0, 1, 'joined'), (1, 0, 'joined')}, orders
+
+    def spinner(ch):
+        s = Scheduler(ch, max_steps=50)
+
+        def spin():
+            while True:
+                point('spin')
+        s.spawn(spin)
+        return s.run()
+    assert spinner(ListChooser([])) == 'step-bound'
+
+    # 5. an escaped exception is a harness error, stop() cuts a run
+    def boom(ch):
+        s = Scheduler(ch)
+        s.spawn(lambda: 1 / 0)
+        s.run()
+    try:
+        boom(ListChooser([]))
+    except SchedulerError:
+        pass
+    else:
+        raise AssertionError('escaped exception not reported')
+
+    def stopper(ch):
+        s = Scheduler(ch)
+        s.spawn(lambda: stop('enough'))
+        s.spawn(lambda: point('never'))
+        return s.run()
+    assert stopper(ListChooser([])) == 'stopped:enough'
+    assert threading.active_count() == 1, threading.enumerate()
+    print('detsched self-test ok')
+
+
+if __name__ == '__main__':
+    _selftest()
